@@ -26,6 +26,8 @@ const (
 	BitsHeavy    uint32 = 0x1d00ffff // genesis difficulty, work 4295032833
 	BitsZero     uint32 = 0x00000000 // target 0 -> work 0
 	BitsNegative uint32 = 0x04923456 // sign bit set -> negative target -> work 0
+	BitsHuge     uint32 = 0x19015555 // work about 0.75 * 2^64: two of them cross the 64-bit boundary
+	BitsMax      uint32 = 0x01010000 // target 1 -> work 2^255: two of them cross 2^256
 )
 
 // WAlphabet returns the first n entries of the difficulty alphabet.
